@@ -267,6 +267,16 @@ pub fn cfg_set(name: &str) -> Vec<Cfg> {
             ]);
             v
         }
+        // unit x continuation products at and beyond the 8-bit range (spaces: the product is a column count)
+        "overflow" => vec![
+            mk(100, "auto", true, false, 16, 16, "lf"),
+            mk(80, "always_wrap", true, false, 8, 40, "lf"),
+            mk(120, "auto", false, false, 255, 255, "crlf"),
+            mk(60, "auto", true, false, 128, 2, "lf"),
+            mk(60, "auto", true, false, 2, 128, "lf"),
+            mk(u32::MAX, "auto", true, false, 17, 15, "lf"),
+            mk(0, "auto", true, false, 255, 2, "lf"),
+        ],
         _ => panic!("unknown cfg set {name}"),
     }
 }
@@ -445,7 +455,7 @@ impl Suite for Grid {
 pub struct Scaled {
     pub max_k: u32,
 }
-pub const SCALED_SHAPES: u64 = 13;
+pub const SCALED_SHAPES: u64 = 17;
 
 impl Suite for Scaled {
     fn len(&self) -> u64 {
@@ -559,6 +569,44 @@ impl Suite for Scaled {
                 marks.push(serde_json::json!(["C", 1, 500, 0, 8 + 4 * n]));
                 let meta = serde_json::json!({"prog": {"marks": marks, "nplain": 8 + 4 * n + 6, "regions": [], "alts": [], "decorated": 0, "idents": []}});
                 return Case { text: t, well_formed: true, label: format!("scaled:shape{shape}:k{k}"), wrap_hint: None, meta };
+            }
+            16 => {
+                // ONE logical line with thousands of tokens: an array constant of 100 k elements, one per line; the
+                // re-layout has them all on one line
+                let n = 100 * k;
+                let elems: Vec<String> = (0..n).map(|j| format!("{j}")).collect();
+                let a = format!("const\n  Table: array[0..{}] of Integer = (\n    {}\n  );\n", n - 1, elems.join(",\n    "));
+                let b = format!("const Table : array [ 0 .. {} ] of Integer = ( {} ) ;\n", n - 1, elems.join(" , "));
+                let meta = serde_json::json!({"prog": {"marks": [], "nplain": 0, "regions": [], "alts": [b], "decorated": 0, "idents": []}});
+                return Case { text: a, well_formed: true, label: format!("scaled:shape{shape}:k{k}"), wrap_hint: None, meta };
+            }
+            13 => {
+                // k nested expression directives, none of them closed (the scanner must not re-scan the tail once per level)
+                t.push_str("x := 1; ");
+                for j in 0..2 * k {
+                    t.push_str(if j % 7 == 3 { "{$elseif B " } else { "{$if A " });
+                }
+            }
+            14 => {
+                // the same in the (*$ form, and alternating forms, with strings and comments between them
+                t.push_str("x := 1; ");
+                for j in 0..2 * k {
+                    t.push_str(["(*$if A ", "{$if 'x' ", "(*$if {c ", "{$if (*c "][j % 4]);
+                }
+            }
+            15 => {
+                // k nested expression directives, all closed, and k unterminated literals / comments after them
+                t.push_str("x := 1; ");
+                for _ in 0..2 * k {
+                    t.push_str("{$if A ");
+                }
+                for _ in 0..2 * k {
+                    t.push_str("} ");
+                }
+                t.push_str("\ny := 2;\n");
+                for j in 0..k {
+                    t.push_str(["'abc\n", "{$ifdef X\n", "(* c\n"][j % 3]);
+                }
             }
             9 => {
                 // nested records k deep with a field and a literal default
